@@ -17,7 +17,7 @@ var vsymC12Max = 24
 type vValue []byte
 
 func (v vValue) Marshal(b *bytes.Buffer) { b.Write(v) }
-func (v vValue) Bytes() []byte            { return v }
+func (v vValue) Bytes() []byte           { return v }
 
 type vSink struct{ got []byte }
 
